@@ -26,6 +26,9 @@ EXPLANATION = (
     'arbitrary programs, the hash memo over a history and the CreatedFiles '
     'counting invariant are not decided.'
     ' R5.7: functions receive deep copies of the recorded arguments, so a callee editing an argument in place cannot change the recorded identity (R11.1).')
+# round 3/4 additions
+EXPLANATION += (
+    " R5.8: CreatedFiles' count arithmetic of registering/forgetting an output is mutually inverse and both sides walk the ancestors. R5.9: records are complete and in completion order (R1.2) and created directories are owned (R9.6).")
 
 
 def r5_1(ctx, rc):
